@@ -211,18 +211,29 @@ def run_corpus(case):
                     neg += 1
                 else:
                     out.append(viol("corpus:v2:wrong-value", "%s %s of %s: %.9f vs %.9f" % (name, an, r.full_name, float(v2[1]), ref)))
-        # chi
-        c = observe(lambda: r.chi)
-        if c[0] == "ok" and not math.isnan(c[1]):
-            base = "N9", "C4"
-            if r.find_atom("N9") is None or r.one_letter_name.upper() in "CUT":
-                base = "N1", "C2"
-            atoms = [r.find_atom(x) for x in ("O4'", "C1'") + base]
+        # chi: O4'-C1'-N9-C4 for purines, O4'-C1'-N1-C2 for pyrimidines; a residue whose one-letter name is not A/C/G/U/T
+        # is a purine exactly when it has an N9 atom. Checked for the name as read and for the unknown names N, n and ?.
+        from rnapolis.tertiary import Residue3D
+
+        for letter in (r.one_letter_name, "N", "n", "?"):
+            rr = r if letter == r.one_letter_name else Residue3D(r.label, r.auth, r.model, letter, r.atoms)
+            if letter.upper() in "AG":
+                base = ("N9", "C4")
+            elif letter.upper() in "CUT":
+                base = ("N1", "C2")
+            else:
+                base = ("N9", "C4") if (rr.find_atom("N9") is not None and rr.find_atom("C4") is not None) else ("N1", "C2")
+            atoms = [rr.find_atom(x) for x in ("O4'", "C1'") + base]
+            c = observe(lambda: rr.chi)
+            if c[0] == "exc":
+                out.append(viol("corpus:chi:" + c[1], "chi raised " + c[2]))
+                continue
             if all(a is not None for a in atoms):
                 ref = rt.torsion(*[a.coordinates for a in atoms])
                 n += 1
-                if rt.angdiff(c[1], ref) > 1e-9 and r.one_letter_name.upper() in "ACGUT":
-                    out.append(viol("corpus:chi:differs-from-reference", "%s chi of %s: %.9f vs %.9f" % (name, r.full_name, c[1], ref)))
+                if math.isnan(c[1]) or rt.angdiff(c[1], ref) > 1e-9:
+                    kind = "known-letter" if letter.upper() in "ACGUT" else "unknown-letter"
+                    out.append(viol("corpus:chi:differs-from-reference:" + kind, "%s chi of %s read as one-letter %r: %.9f vs reference %.9f (%s)" % (name, r.full_name, letter, c[1], ref, "-".join(("O4'", "C1'") + base))))
     if neg:
         out.append(viol("corpus:v2==-reference", "tertiary_v2.calculate_torsion_angle returned the negated reference value for %d backbone torsions of %s" % (neg, name)))
     # v2 torsion table
